@@ -164,6 +164,21 @@ def resolver_for(case, last_all_atom=True, legacy=True):
             from cgsmiles.read_cgsmiles import read_cgsmiles
             return MoleculeResolver.from_graph('.'.join(blocks[1:]), read_cgsmiles(blocks[0]),
                                                last_all_atom=last_all_atom, legacy=legacy)
+        if ctor == 'graph-reinserted':
+            # the caller's own base graph: the same keys and bonds, the nodes put in in another order
+            import networkx as nx
+            from cgsmiles.read_cgsmiles import read_cgsmiles
+            g0 = read_cgsmiles(blocks[0])
+            rng = random.Random(stable_hash(s))
+            order = list(g0.nodes)
+            rng.shuffle(order)
+            g1 = nx.Graph()
+            for n in order:
+                g1.add_node(n, **g0.nodes[n])
+            for a, b, d in g0.edges(data=True):
+                g1.add_edge(a, b, **d)
+            case['caller_names'] = {str(n): g0.nodes[n].get('fragname') for n in g0.nodes}
+            return MoleculeResolver.from_graph('.'.join(blocks[1:]), g1, last_all_atom=last_all_atom, legacy=legacy)
         libs = MoleculeResolver.read_fragment_strings(blocks[1:], last_all_atom=last_all_atom)
         if ctor == 'reordered':
             rng = random.Random(stable_hash(s))
